@@ -7,6 +7,7 @@ import Driver.TrieOps
 import Driver.KkcOps
 import Driver.ServerOps
 import Driver.SkkOps
+import Driver.ConcOps
 
 namespace Driver
 open Chokan
@@ -43,7 +44,7 @@ def handle (st : State) (line : String) : State × String :=
     match kkcOps st.kkc op arg with
     | some (k, r) => ({ st with kkc := k }, r.trimAsciiEnd.toString)
     | none =>
-    let r := (((romaOps op arg).orElse fun _ => dicOps op arg).orElse fun _ => kanaOps op arg).orElse fun _ => skkOps op arg
+    let r := (((romaOps op arg).orElse fun _ => dicOps op arg).orElse fun _ => kanaOps op arg).orElse fun _ => (skkOps op arg).orElse fun _ => concOps op arg
     match r with
     | some r => (st, r.trimAsciiEnd.toString)
     | none => (st, "bad-op")
